@@ -147,6 +147,37 @@ func genC14(r *fw.Rng, tier string, emit func(fw.Case)) {
 	}
 }
 
+// genManyMissing: large transfers with a number of missing packets around the byte boundaries of the count field
+func genManyMissing(r *fw.Rng, tier string, emit func(fw.Case)) {
+	for _, nm := range [][2]int{{128, 127}, {255, 126}, {255, 127}, {255, 128}, {255, 254}, {200, 64}} {
+		N, miss := nm[0], nm[1]
+		t := randTransfer(r, 0x0801, 1)
+		t.bodies = nil
+		for k := 0; k < N; k++ {
+			t.bodies = append(t.bodies, []byte{byte(k + 1), byte(k >> 8)})
+		}
+		var first []byte
+		// packet 1 and the last N-1-miss packets arrive; numbers 2..miss+1 are missing
+		for no := 1; no <= N; no++ {
+			if no >= 2 && no <= miss+1 {
+				continue
+			}
+			first = append(first, t.packet(no, r).bytes...)
+		}
+		var cs []pchunk
+		for len(first) > 0 {
+			n := 1000
+			if n > len(first) {
+				n = len(first)
+			}
+			cs = append(cs, pchunk{0, first[:n]})
+			first = first[n:]
+		}
+		cs = append(cs, pchunk{5000, mkFrame(frames.H{ID: 2, Phone: t.phone, V2019: t.v2019}, nil).bytes})
+		emitSess(emit, cs)
+	}
+}
+
 var rereqLast struct {
 	key string
 	orc *fw.OracleFailure
@@ -155,6 +186,7 @@ var rereqLast struct {
 var C14 = &fw.Prop{ID: "C14",
 	Gen: func(r *fw.Rng, tier string, emit func(fw.Case)) {
 		genC14(r, tier, emit)
+		genManyMissing(r, tier, emit)
 		genRereqSock(r, tier, emit)
 	},
 	Oracle: func(c fw.Case) *fw.OracleFailure {
